@@ -372,6 +372,9 @@ def run(repo, rep, tier):
         for f, ln, fn, cons, why in accessor_state(repo, eng7, cls7):
             rep.fail("R-C06-7", f, ln, fn, cons, why + ": batched results no longer equal the result of the spectrum extracted on its own once the object was edited in place")
         rep.ok("R-C06-7", f"{cls7.module.relpath} {cls7.name}", f"{len(cls7.methods)} methods", "no derived state stored on the accessor")
+    from .c18 import partition_state
+    for f_, ln_, fn_, cons_, why_, anch_ in partition_state(repo):
+        rep.fail("R-C06-7", f_, ln_, fn_, cons_, why_ + ": the Dataset accessor then disagrees with the array accessor after an in-place edit", anchor=anch_)
     contiguity(repo, rep, "R-C06-6")
     for q, why in EXEMPT_FUNCS.items():
         rep.note(f"out of scope: {q}: {why}")
